@@ -29,6 +29,9 @@ CHECKS = {
  "C08": ("exploration", "differential runtime check of the real parser (via verif accessor) against a big.Int reference over an exhaustive small-value grid + boundary grid + seeded random/mutated strings; end-to-end and raw-header deadline monitors on recorded timestamps",
          "Parser: all 1..4-digit values per unit exhaustively, boundary values for 1..8 digits, overflow thresholds, over-long and ~640 malformed strings, up to 10^7 random values, each compared with an exact saturating reference. End to end and raw-header runs through the real client/server check the handler's deadline against brackets that contain the measured transit time, so load cannot falsify them.",
          "Over-long (9+ digit) values may be ignored or read exactly (goat's own client needs 11 digits for 10^4 h); timestamps from the process's monotonic clock.", "DESIGN.md 2/C08"),
+ "C12": ("exploration", "bounded-exhaustive hostile input generation from a scripted peer against the real server in child processes (crash = violation with the exact sequence from a cursor file), probe-after-sequence liveness oracle at final states, reference dispatcher for handler invocations and resets",
+         "Every envelope sequence up to length 3 (quick) / 4 (thorough) over 25 shapes x 2 ids, plus field-level mutations and long random sequences, each against a fresh server connection: the process must survive, a following valid probe must be answered correctly, handler invocations and resets must match a reference dispatcher where timing-independent, and Serve must return when the connection ends.",
+         "Exhaustive over the stated alphabet and lengths only; within a sequence the schedule is whatever the runtime produced.", "DESIGN.md 2/C12"),
 }
 NOT_YET = "check not built yet in this round (runtime-monitoring design in DESIGN.md section 2); will be claimed once its monitor exists"
 
